@@ -13,6 +13,10 @@ use shredh::{
 };
 
 fn main() {
+    shredh::run_main(real_main)
+}
+
+fn real_main() {
     shredh::quiet_panics();
     let a = Args::from_env();
     match a.cmd() {
